@@ -2,6 +2,7 @@ use std::borrow::Cow;
 use std::collections::HashSet;
 use std::sync::OnceLock;
 
+use itertools::Itertools;
 use regex::Regex;
 
 use super::{WriteOpt, WriteSource};
@@ -159,7 +160,8 @@ impl WriteSource for pr::ExprKind {
                 r += opt.consume(&name)?;
                 opt.unbound_expr = true;
 
-                for (name, arg) in &func_call.named_args {
+                // named args live in a HashMap: write them in name order so that output is stable
+                for (name, arg) in func_call.named_args.iter().sorted_by_key(|(name, _)| *name) {
                     r += opt.consume(" ")?;
 
                     r += opt.consume(name)?;
@@ -390,7 +392,7 @@ impl WriteSource for pr::Stmt {
                 if let Some(version) = &query.version {
                     r += &format!(r#" version:"{version}""#);
                 }
-                for (key, value) in &query.other {
+                for (key, value) in query.other.iter().sorted() {
                     r += &format!(" {key}:{value}");
                 }
                 r += "\n";
